@@ -1,7 +1,7 @@
 (* C10/Properties.v — streamed parsing ignores chunking; the callback gets every byte.
    Statements only; proofs in C09/Proofs.v and C10/Proofs.v.  [drive], [spec]: C09/Model.v. *)
 From Coq Require Import ZArith List Bool.
-From RM Require Import Base.Word C08.Model C11.Model C09.Model C09.Grammar C09.Driver C09.Proofs C09.ProofsBytes C10.Model C10.Proofs C10.ProofsCache C10.ProofsAsync C09.ProofsFinish C09.ProofsFinal C10.Stream C10.ProofsStream C10.Driver C10.ProofsStreamTrace.
+From RM Require Import Base.Word C08.Model C11.Model C09.Model C09.Grammar C09.Driver C09.Proofs C09.ProofsBytes C10.Model C10.Proofs C10.ProofsCache C10.ProofsAsync C09.ProofsFinish C09.ProofsFinal C10.Stream C10.ProofsStream C10.Driver C10.ProofsStreamTrace C10.ProofsBound.
 From RM Require Gen.C10Stream.
 From RM Require C09.Pins.
 Import ListNotations.
@@ -306,3 +306,29 @@ Example c10_nonvacuous_stream_failure_after_bad_line :
   | (o, t) => (o_kind o, o_code o, o_line o, o_skind o, o_scode o, o_sline o)
   end = (1, 1, 1, 1, 1, 1).
 Proof. vm_compute. split; reflexivity. Qed.
+
+(* ================================================================== round 5: the class is exactly as wide as it can be.
+   c10_chunk_independent needs every line to have at most HALF_CAP = 81920 bytes with its '\n' (content < 80 KiB).
+   With a single line of HALF_CAP + 1 bytes (content = 80 KiB exactly) and every other line inside the class there
+   are two schedules with different symbol tables: 10240-byte reads keep the line (5 FILE records), the whole-slice
+   read (from_bytes) discards it as an "enormous line" (4 FILE records).  Replayed on the real code (corpus). *)
+Theorem c10_bound_is_tight :
+  exists (lines : list rle) (s1 s2 : list Z) r1 x1 r2 x2 t1 t2,
+    Forall (fun l => cllen l <= HALF_CAP + 1) lines /\
+    drive_c lines 0 s1 = Ret (r1, x1) /\ drive_c lines 0 s2 = Ret (r2, x2) /\
+    table_of r1 = Ret (Some t1) /\ table_of r2 = Ret (Some t2) /\
+    zlen (t_files t1) = 5 /\ zlen (t_files t2) = 4 /\ t1 <> t2.
+Proof. exact bound_tight. Qed.
+Print Assumptions c10_bound_is_tight.
+
+(* The other end of the alignment-dependent band: a line of MAX_CAP = 163840 bytes with its '\n' (content 160 KiB - 1)
+   is kept under one schedule and discarded under another; from MAX_CAP + 1 on it is discarded under every schedule
+   (c09_long_line_dropped).  So the band is exactly 80 KiB <= content < 160 KiB at both ends. *)
+Theorem c10_band_top_dependent :
+  exists (lines : list rle) (s1 s2 : list Z) r1 x1 r2 x2 t1 t2,
+    Forall (fun l => cllen l <= MAX_CAP) lines /\
+    drive_c lines 0 s1 = Ret (r1, x1) /\ drive_c lines 0 s2 = Ret (r2, x2) /\
+    table_of r1 = Ret (Some t1) /\ table_of r2 = Ret (Some t2) /\
+    zlen (t_files t1) <> zlen (t_files t2).
+Proof. exact band_top_dependent. Qed.
+Print Assumptions c10_band_top_dependent.
